@@ -152,6 +152,10 @@ sp_run(Params *p)
 	if (pr.open_a == nng_req0_open)
 		RETRY(nng_socket_set_ms(a, NNG_OPT_REQ_RESENDTIME, 100), "nng_socket_set_ms");
 	std::string  url = h_url(tr, 90);
+	if (p->i("longurl", 0) && (tr == TR_INPROC || tr == TR_WS || tr == TR_IPC)) {
+		// a URL that does not fit the parser's inline buffer
+		url += std::string(150, 'u');
+	}
 	nng_listener l;
 	nng_dialer   d;
 	RETRY(nng_listen(b, url.c_str(), &l, 0), "nng_listen");
